@@ -48,10 +48,13 @@ void svt_print_alloc_fail(const char *f, int l) { (void)f; (void)l; }
 static EbComponentType comp;
 static EbEncHandle H;
 static EbSequenceControlSetInstance inst, *instp = &inst;
-static SequenceControlSet scs;
+static SequenceControlSet *scs_p;   /* calloc'ed (a 200 kB static would be zero-initialised field by field) */
+#define scs (*scs_p)
 static EncodeContext ectx;
 static EbFifo fifo_in, fifo_out, fifo_rec;
+static void mk_scs(void) { if (!scs_p) { scs_p = (SequenceControlSet *)calloc(1, sizeof(SequenceControlSet)); V_ASSUME(scs_p != NULL); } }
 static EbComponentType *mk_handle(void) {
+    mk_scs();
     comp.p_component_private = &H;
     H.scs_instance_array = &instp;
     inst.scs_ptr = &scs; inst.encode_context_ptr = &ectx; inst.config_mutex = &mtx_cfg;
@@ -104,6 +107,7 @@ void m_reject_then_accept(void) {
 /* ---- S: validation of an arbitrary configuration is itself free of undefined behaviour ---- */
 void s_validate_arbitrary_config(void) {
     EbSvtAv1EncConfiguration cfg;
+    mk_scs();
     vin_fill(&cfg, sizeof cfg);
 #ifndef MANUAL_PS_MAX
 #define MANUAL_PS_MAX 2
